@@ -176,6 +176,12 @@ def check(pid, tier, replay_file):
     result = {'property': pid, 'tier': tier, 'seed': seed}
     b = build_phase(prop, result)
     tie_broken = list(b['broken'])
+    if tier == 'thorough' and b['proofs_ok'] and not replay_file:
+        # independent re-check of the compiled theorem modules (and everything they import)
+        ok, out = core.leanchecker(prop.props_modules)
+        b['leanchecker'] = 'ok' if ok else out[-800:]
+        if not ok:
+            tie_broken.append('leanchecker rejected the compiled theorem modules: ' + out[-300:])
 
     findings = [e for e in core.known_findings(pid) if e.get('kind') == 'finding']
     finding_keys = {e['key']: e for e in findings}
@@ -291,6 +297,7 @@ def check(pid, tier, replay_file):
             'checker_cmd': f'cd lean && lake build {" ".join(prop.props_modules)} && lake env lean Audit/{pid}.lean   (run by ./check {pid})',
             'trusted_base': core.BASE_TRUSTED + list(prop.trusted),
             'theorems': [{'name': t, 'axioms': b['axioms'].get(t)} for t in prop.theorems],
+            'leanchecker': b.get('leanchecker', 'not run in this tier'),
             'statement': prop.statement_note,
             'modelled_not_verified': prop.unmodelled,
             'correspondence': {
